@@ -74,6 +74,8 @@ def execSide (s : SideState) (stream op : String) (a : List String) : SideState 
   | "res", "new", [_, port] => ({ s with rr := {}, rrIndex := [], resPort := port.toUTF8.toList, resEntries := [] }, "ok")
   | "res", "host", [h] => ({ s with resEntries := s.resEntries ++ [(unhex h, {})] }, "ok")
   | "res", "close", _ => (s, "ok")
+  | "res", "disp", _ => (s, "recv=" ++ hexJoin (sortBytes s.rr.backends))
+  | "res2", "disp", _ => (s, "recv=" ++ hexJoin (sortBytes s.rr.backends))
   | "res2", "new", _ :: _ :: hps =>
     let pairs := hps.filterMap fun hp => cutLast 58 (unhex hp)
     ({ s with rr := {}, rrIndex := [], resPorts := pairs, resEntries := pairs.map fun p => (p.1, {}) }, "ok")
@@ -129,6 +131,11 @@ def execSide (s : SideState) (stream op : String) (a : List String) : SideState 
 updated observer state and the failures as `<property> <what>`. -/
 def specSide (s : SideState) (stream op : String) (a impl : List String) : SideState × List String :=
   match stream, op, a with
+  | "pool", "alloc", _ =>
+    -- exclusivity (C10): a buffer that a client still holds is never handed out again
+    (s, match impl with
+        | "double-alloc" :: _ => ["C10 buffer-handed-out-while-still-held"]
+        | _ => [])
   | "rr", "new", _ => ({ s with rrObs := {} }, [])
   | "rr", "add", [x] => ({ s with rrObs := s.rrObs.add (unhex x) }, [])
   | "rr", "rem", [x] => ({ s with rrObs := s.rrObs.remove (unhex x) }, [])
@@ -172,6 +179,13 @@ def specSide (s : SideState) (stream op : String) (a impl : List String) : SideS
   | "res", "new", [_, port] => ({ s with resObs := [], resObsPort := port.toUTF8.toList }, [])
   | "res", "host", [h] => ({ s with resObs := s.resObs ++ [(unhex h, ([], 0))] }, [])
   | "res", "close", _ => (s, [])
+  | "res", "disp", _ =>
+    let expected := sortBytes ((s.resObs.flatMap fun e => e.2.1.map fun ip => Side.Res.hostPort ip s.resObsPort).eraseDups)
+    (s, if impl == ["recv=" ++ hexJoin expected] then [] else ["C19 dispatches-do-not-reach-exactly-the-resolved-addresses"])
+  | "res2", "disp", _ =>
+    let portOf (hn : Bytes) : Bytes := ((s.resObsPorts.find? (fun p => p.1 == hn)).map (·.2)).getD []
+    let expected := sortBytes ((s.resObs.flatMap fun e => e.2.1.map fun ip => Side.Res.hostPort ip (portOf e.1)).eraseDups)
+    (s, if impl == ["recv=" ++ hexJoin expected] then [] else ["C19 dispatches-do-not-reach-exactly-the-resolved-addresses"])
   | "res2", "new", _ :: _ :: hps =>
     let pairs := hps.filterMap fun hp => cutLast 58 (unhex hp)
     ({ s with resObs := pairs.map fun p => (p.1, ([], 0)), resObsPorts := pairs }, [])
